@@ -180,13 +180,18 @@ def _set_cache_item(hashed_grammar, path, module_cache_item):
     parser_cache.setdefault(hashed_grammar, {})[path] = module_cache_item
 
 
-def try_to_save_module(hashed_grammar, file_io, module, lines, pickling=True, cache_path=None):
+def try_to_save_module(hashed_grammar, file_io, module, lines, pickling=True, cache_path=None,
+                       read_time=None):
     path = file_io.path
     try:
         p_time = None if path is None else file_io.get_last_modified()
     except OSError:
         p_time = None
         pickling = False
+    if p_time is not None and read_time is not None:
+        # The file might have been modified after it was read. Never record a
+        # newer time than the one of the content that was actually parsed.
+        p_time = min(p_time, read_time)
 
     item = _NodeCacheItem(module, lines, p_time)
     _set_cache_item(hashed_grammar, path, item)
